@@ -351,6 +351,20 @@ func (app *App) txDeliverer() txDeliverer {
 
 		gas := txCtx.State.ConsumedGas()
 
+		// a block may carry transactions that never went through this node's CheckTx (the
+		// proposer chooses them), so signatures, fee and fields are validated here as well
+		if valid, err := handler.Validate(txCtx, *tx); err != nil || !valid {
+			app.Context.deliver.DiscardTxSession()
+			log := "transaction is not valid"
+			if err != nil {
+				log = err.Error()
+			}
+			return ResponseDeliverTx{
+				Code: CodeNotOK.uint32(),
+				Log:  log,
+			}
+		}
+
 		ok, response := handler.ProcessDeliver(txCtx, tx.RawTx)
 		feeOk, feeResponse := handler.ProcessFee(txCtx, *tx, gas, storage.Gas(len(msg.Tx)), storage.Gas(response.GasUsed))
 
